@@ -14,7 +14,7 @@ rm -rf "$scratch/repo/eliot/__pycache__" "$scratch/repo/eliot/tests/__pycache__"
 if ! (cd "$scratch/repo" && patch -p1 -s --no-backup-if-mismatch < "$patch"); then
   echo "PATCH FAILED: $patch"; exit 3
 fi
-cd /verif
+cd "$(dirname "$(readlink -f "$0")")/.."
 for id in "$@"; do
   out="$scratch/out.$id"
   VERIF_REPO="$scratch/repo" VERIF_OUT="$scratch/out" ./check "$id" --tier "$tier" > "$out" 2>&1
